@@ -54,7 +54,7 @@ ASSUMPTIONS = [
 ]
 
 FAULTS = ['raise', 'quit', 'switch', 'disable', 'dispatch', 'addh', 'rmh',
-          'disable_dispatch']
+          'disable_dispatch', 'reenable_nested']
 FIXED_HANDLERS = [['a'], ['a', 'b'], ['b']]
 
 
@@ -91,6 +91,16 @@ def gen_cases(tier, seed):
                            'events': list(events), 'faults': [[0, pos, kind]],
                            'cycles': 1, 'world': True, 'direct': True,
                            'extra': [['+', 'a']]}
+    for i in range(24 if tier == 'quick' else 400):
+        rng = random.Random(f'C04/scale/{seed}/{tier}/{i}')
+        events = [rng.choice('abc') for _ in range(rng.randint(70, 260))]
+        handlers = [['a', 'b'], ['b', 'c'], ['a', 'c']]
+        total = callbacks_of(handlers, events)
+        yield {'handlers': handlers, 'spare': ['a', 'b'], 'events': events,
+               'faults': [[0, rng.randrange(total), rng.choice(FAULTS)],
+                          [1, rng.randrange(40), rng.choice(FAULTS)]],
+               'cycles': 2, 'world': rng.random() < 0.3,
+               'extra': [['a', 'b'], ['c']], 'direct': rng.random() < 0.5}
     if tier == 'quick':
         n = 600
     else:
@@ -240,6 +250,32 @@ def run_case(case):
             name = case['events'][-1] if case['events'][-1] not in 'z+' \
                 else 'a'
             d.dispatch(name, new_token(name))
+        elif kind == 'reenable_nested':
+            # disable, dispatch, enable again - all from inside a callback
+            # that a release is running: the nested enabling assignment must
+            # deliver everything still pending before it returns
+            d.dispatch_enabled = False
+            dispatched_from_callbacks[0] += 1
+            name = case['events'][-1] if case['events'][-1] not in 'z+' \
+                else 'a'
+            d.dispatch(name, new_token(name))
+            d.dispatch_enabled = True
+            got_now = {(e[1], e[2]) for e in log}
+            changed_h = {c[1] for c in changes}
+            for tok, nm, _ in tokens:
+                if nm in 'z+' or tok in faulting_tokens:
+                    continue
+                for h in range(len(handlers)):
+                    if h in changed_h or nm not in listening[h]:
+                        continue
+                    if (h, tok) not in got_now and not res.divs:
+                        res.div(assignment[0], 'left-pending', 'an enabling '
+                                'assignment made from inside a callback of a '
+                                'running release returned with event token '
+                                f'{tok} ({nm}) not delivered to handler {h}',
+                                'delivered before the assignment returns',
+                                'still pending', injected=list(injected))
+            res.stats['nested_reenable'] += 1
         elif kind == 'dispatch':
             dispatched_from_callbacks[0] += 1
             name = case['events'][0] if case['events'][0] not in 'z+' \
